@@ -160,9 +160,36 @@ pub fn random_history(seed: u64, idx: u64, max_len: usize) -> Scenario {
     sc
 }
 
+/// one faulty connection kind repeated K times in a row (K up to 64, far beyond the worker
+/// count), then the probe: counters and thresholds that only trip after a run of failures
+pub fn repeated_fault(seed: u64, idx: u64) -> Scenario {
+    let mut rng = rng_for(seed, "C06", "repeated_fault", idx);
+    let mut sc = Scenario::base("C06", "repeated_fault", idx);
+    sc.engine = Engine::System;
+    sc.sched = pick_sched(&mut rng);
+    sc.workers = rng.range(1, 4);
+    sc.request_size = 16000;
+    sc.tree = small_tree(0xC06);
+    let s = sites();
+    let rc = request_classes();
+    let (sname, apply) = &s[rng.below(s.len())];
+    let (rname, rbytes) = rc[rng.below(rc.len())].clone();
+    let k = *rng.pick(&[1usize, 2, 3, 5, 7, 8, 9, 12, 16, 17, 24, 33, 64]);
+    let sequential = rng.chance(1, 2);
+    for j in 0..k {
+        let mut c = Conn::simple(j, if sequential { j as u32 } else { (j / 4) as u32 }, rbytes.clone(), "");
+        apply(&mut c);
+        c.class = format!("{}+{}", rname, sname);
+        sc.conns.push(c);
+    }
+    sc.probe = Probe::Capacity { request: probe_request().into() };
+    sc
+}
+
 pub fn plan(tier: Tier, seed: u64) -> Vec<Campaign> {
     vec![
         Campaign { name: "single_fault_enumeration", budget: Budget::Count(enumeration_size()), exhaustive: true, gen: Box::new(move |i| enumerated(seed, i)) },
+        Campaign { name: "repeated_fault", budget: match tier { Tier::Quick => Budget::Count(1500), Tier::Thorough => Budget::Time(1) }, exhaustive: false, gen: Box::new(move |i| repeated_fault(seed, i)) },
         match tier {
             Tier::Quick => Campaign { name: "random_histories", budget: Budget::Count(2000), exhaustive: false, gen: Box::new(move |i| random_history(seed, i, 40)) },
             Tier::Thorough => Campaign { name: "random_histories", budget: Budget::Time(1), exhaustive: false, gen: Box::new(move |i| random_history(seed, i, 300)) },
